@@ -50,17 +50,29 @@ func Ldexp(frac Decimal, exp int) Decimal {
 		return frac
 	}
 
-	if exp < minUnbiasedExponent {
+	if exp < -maxBiasedExponent-maxDigits-1 {
 		return zero(frac.Signbit())
 	}
 
-	if exp > maxUnbiasedExponent+39 {
+	if exp > maxBiasedExponent+39 {
 		return inf(frac.Signbit())
 	}
 
 	neg := frac.Signbit()
 	fsig, fexp := frac.decompose()
-	fexp += int16(exp)
+
+	// frac is fsig × 10**(fexp - exponentBias) with 0 < fsig < 10**maxDigits
+	texp := int(fexp) + exp
+
+	if texp < minBiasedExponent-maxDigits-1 {
+		return zero(neg)
+	}
+
+	if texp > maxBiasedExponent+39 {
+		return inf(neg)
+	}
+
+	fexp = int16(texp)
 
 	sig, exp16 := DefaultRoundingMode.reduce128(neg, fsig, fexp, 0)
 
